@@ -46,6 +46,24 @@ CHECKS = {
  "C15": ("accept side: programs well-typed by construction must be accepted; reject side: 16 classes of single certainly-ill-typed edits applied at every applicable site must be rejected with an error (not accepted, no panic)",
          "trusts the generator's typing discipline (accept) and that each mutation class is ill-typed under any reading (reject)",
          "property-based testing: constructive generation + mutation-based negative testing"),
+ "C14": ("assembly of all three backends for generated programs with adversarial identifiers, for the same programs extended by a definition whose name is chosen (two-pass) to print as a compiler-generated label, and for directly generated linear programs: text validator (labels unique/defined, runtime symbols, immediate/shift/offset ranges per instruction form), GNU as on the transliterated x86-64 file plus jump-table stride read from the object's symbol table, llvm-mc on the AArch64 text",
+         "GNU as stands in for yasm, llvm-mc for the AArch64 assembler; RISC-V pseudo-assembly has no assembler, only the validator applies",
+         "property-based testing with the real assemblers as oracles plus an independent well-formedness validator; adversarial two-pass name generation"),
+ "C16": ("grammar-directed random programs (all term forms in all operand positions, comments/blank lines), generated typed programs and the repository's .sc files, each at 3 configurations from widths 1..200 and indents 0..8: parse -> print -> parse must give the same tree and printing again the same text; three recorded inputs of known finding D9 are replayed and reported as KNOWN-FINDING",
+         "derived equality on the repository's AST ignores spans only; the known finding's shape (literal 0 token adjacent to a comparison operator) is excluded from generation by construction",
+         "property-based round-trip testing (parse/print/parse)"),
+ "C17": ("(a) each generated program is compiled in 8 (quick) / 32 (thorough) fresh processes with varied environment and working directory; all printed stages must be byte-identical; (b) the same program compiled alone, twice and after other programs in one process must agree up to renumbering of generated label counters",
+         "hash seeds cannot be chosen, processes sample them; the library stages are run, not the scc binary",
+         "differential testing across processes and compilation histories (metamorphic relation: same input, different process state)"),
+ "C18": ("token-level and byte-level mutations of valid programs, extreme literals, nesting up to a fixed depth, entry-point variations and random parseable-but-ill-typed programs: parser and checker must return Ok/Err, accepted programs with a valid entry must pass all later stages without a panic other than the documented capacity assertions; thorough adds a libFuzzer target",
+         "stack exhaustion by unboundedly deep nesting is outside the property ('within stack limits'); the RISC-V backend's documented print limitation is tolerated",
+         "mutation-based fuzzing with a crash/panic oracle (catch_unwind) + coverage-guided libFuzzer target"),
+ "C19": ("scalable families (sequenced/nested conditionals and matches, critical pairs over multi-constructor types, codata results, random mixtures): every stage's size at depth 2k is at most 16x its size at depth k for k = 4..8",
+         "size measured on the printed form of each stage; witnesses polynomial growth on families, cannot prove it for all programs",
+         "metamorphic testing over scalable generated families (growth-rate oracle)"),
+ "C20": ("io.c linked with a small C main: all boundary values and random 64-bit values against Rust's formatting; programs printing all parameters compiled through the real pipeline and C driver for 0..5 parameters with boundary/random arguments, wrong argument counts, exit status; AArch64 entry with 0..7 arguments on the emulator",
+         "gcc/GNU as of the sandbox; AArch64 on the emulator only",
+         "property-based testing against a reference formatter and the source semantics, native execution"),
 }
 
 DESIGN_REF = {k: f"DESIGN.md section 4/{k}" for k in ["C%02d" % i for i in range(1, 21)]}
